@@ -560,9 +560,14 @@ def gen_where(g, env):
         lb, ubmin = dim_range(dd)
         extents.append(g.i(1, ubmin - lb + 1))
 
+    # the blocks of one WHERE construct may assign different (conformable) arrays
+    cands = [a for a in arrs if len(env.vars[a]['dims']) == len(v['dims'])
+             and all(dim_range(d2)[1] - dim_range(d2)[0] + 1 >= e for d2, e in zip(env.vars[a]['dims'], extents))]
+
     def one_assign():
-        lhs = section_of(g, env, n, extents, allow_stride=False)
-        return ['assign', lhs, arr_expr(g, env, t, extents, 2)]
+        tgt = g.pick(cands) if cands and g.p.get('where_multi_target', True) and g.chance(50) else n
+        lhs = section_of(g, env, tgt, extents, allow_stride=False)
+        return ['assign', lhs, arr_expr(g, env, env.vars[tgt]['type'], extents, 2)]
 
     mask = mask_expr(g, env, n, extents, 1)
     if g.chance(30):
